@@ -4,15 +4,28 @@
 (* The state machine converts the CURRENT COORDINATES from chart to chart; *)
 (* the invariant says the abstract point never moves, i.e. every chain of  *)
 (* conversions returns the coordinates of the same point.                  *)
+(*                                                                         *)
+(* The same machine carries the QUERY HISTORY of one point object:  a      *)
+(* point is BUILT from the coordinates c in the model `chart` (every       *)
+(* model, every dimension) and then asked a sequence of read-only queries  *)
+(* (coordinates in a model, distance to the origin, distance to a second   *)
+(* object built from the same coordinates, origin_to).  Every query has a  *)
+(* specified value; the values already HANDED OUT (`held`) and the         *)
+(* coordinates the caller supplied (`c`) are values, not windows into the  *)
+(* object: no later query changes them (HeldValid, CallerCoordsKept).      *)
 (***************************************************************************)
 EXTENDS HypCoords
 
-CONSTANT MaxSteps
+CONSTANTS MaxSteps,
+          BPair,       \* bound on |entries| for the table of cross-model distance pairs
+          BHist,       \* bound on |entries| of the points that are taken through query histories
+          MaxQueries   \* length of the query histories
 
 VARIABLES x,       \* the abstract point (primitive integer vector of length N+1)
           chart,   \* model the current coordinates are written in
           c,       \* current coordinates (sequence of rationals)
-          steps, last
+          steps, last,
+          held     \* query history: sequence of <<query, value handed out>>
 
 (***************************************************************************)
 (* The conversion machine                                                  *)
@@ -21,17 +34,16 @@ Init == /\ x \in Points
         /\ chart \in Models /\ Defined(x, chart)
         /\ c = Coord(x, chart)
         /\ steps = 0 /\ last = [a |-> "init"]
+        /\ held = <<>>
 
 \* read the coordinates in model m2 of the point whose coordinates in `chart` are c
 Convert(m2) ==
   LET y == From(chart, c) IN
-  /\ steps < MaxSteps
+  /\ steps < MaxSteps /\ held = <<>>
   /\ Defined(y, m2)
   /\ chart' = m2 /\ c' = Coord(y, m2)
-  /\ steps' = steps + 1 /\ UNCHANGED x
+  /\ steps' = steps + 1 /\ UNCHANGED <<x, held>>
   /\ last' = [a |-> "convert", from |-> chart, to |-> m2]
-
-Next == \E m2 \in Models : Convert(m2)
 
 \* the abstract point never moves
 PointFixed == c = Coord(x, chart) /\ From(chart, c) = x
@@ -49,12 +61,19 @@ InModel ==
 \* divisions; the rational half-space formulas and the round-trip invariants would overflow 32-bit arithmetic
 \* for them, so they are only emitted (the harness checks conversions among these models and library round trips).
 PadN(v) == v \o [i \in 1..(N + 1 - Len(v)) |-> 0]
+\* The last Pell solution that fits 32-bit arithmetic, (19601, 13860): hyperbolic distance ~10.6 from the origin, Poincare
+\* radius 0.99995, Klein radius 1 - 1.3e-9 - an ordinary interior point whose ball coordinates are close to the sphere.
 FarPts == IF N >= 2 THEN {PadN(<<17, 12, 12>>), PadN(<<99, 70, 70>>), PadN(<<577, 408, 408>>), PadN(<<3363, 2378, 2378>>),
-                          PadN(<<577, 0 - 408, 408>>), PadN(<<3363, 2378, 0 - 2378>>), PadN(<<99, 0 - 70, 0 - 70>>)}
-          ELSE {<<5, 4>>, <<13, 12>>, <<25, 24>>, <<41, 40>>, <<41, 0 - 40>>}
-FarCoshSq(u, v) == R(MDot(u, v), S(u) * S(v))          \* -cosh d (both of norm -s^2); small enough not to overflow
-ASSUME PrintT("FAR " \o ToJson({[x |-> v, s |-> S(v), klein |-> Klein(v), poincare |-> Poincare(v),
-                                    hyperboloid |-> Hyperboloid(v)] : v \in FarPts}))
+                          PadN(<<577, 0 - 408, 408>>), PadN(<<3363, 2378, 0 - 2378>>), PadN(<<99, 0 - 70, 0 - 70>>),
+                          PadN(<<19601, 13860, 13860>>), PadN(<<19601, 0 - 13860, 13860>>)}
+          ELSE {<<5, 4>>, <<13, 12>>, <<25, 24>>, <<41, 40>>, <<41, 0 - 40>>, <<19601, 19599>>, <<19601, 0 - 19599>>}
+FS(v) == CHOOSE r \in 1..300 : r * r = NN(v)           \* S(v) without the linear search up to NN(v)
+FarCoshSq(u, v) == R(MDot(u, v), FS(u) * FS(v))          \* -cosh d (both of norm -s^2); small enough not to overflow
+\* cond = (x0/s)^2 = 1 / (1 - |k|^2): the conditioning of everything computed from ball coordinates of the point
+\* (a relative rounding error eps in the coordinates is eps * cond in cosh d); the harness scales its tolerance by it
+ASSUME PrintT("FAR " \o ToJson({[x |-> v, s |-> FS(v), klein |-> Klein(v), cond |-> R(v[1] * v[1], NN(v)),
+                                    poincare |-> [i \in 1..N |-> R(v[i + 1], v[1] + FS(v))],
+                                    hyperboloid |-> [i \in 1..(N + 1) |-> R(v[i], FS(v))]] : v \in FarPts}))
 \* nearly coincident pairs (K, 1, 0, ..) and (K, 0, 1, ..): both have -<x,x> = K^2 - 1, so cosh d = K^2 / (K^2 - 1)
 \* exactly, i.e. cosh d - 1 = 1 / (K^2 - 1): distances 1.4e-2 ... 7e-5
 NearPairs == IF N >= 2 THEN {<<PadN(<<k, 1, 0>>), PadN(<<k, 0, 1>>), R(1, k * k - 1)>> : k \in {100, 1000, 5000, 20000}}
@@ -62,7 +81,56 @@ NearPairs == IF N >= 2 THEN {<<PadN(<<k, 1, 0>>), PadN(<<k, 0, 1>>), R(1, k * k 
 ASSUME PrintT("NEARPAIRS " \o ToJson(NearPairs))
 ASSUME PrintT("FARPAIRS " \o ToJson({<<u, v, FarCoshSq(u, v)>> : u \in FarPts, v \in FarPts}))
 
-Emit == PrintT("EMIT " \o ToJson([x |-> x, ideal |-> Ideal(x), from |-> [m |-> chart, c |-> c],
+\* ------------------------------------------------------------------ one metric across the models
+\* all ordered pairs of interior points of the (perfect-square) universe with entries bounded by BPair, with the exact
+\* cosh d (rational there).  The harness builds the first point from its coordinates in one model and the second from its
+\* coordinates in another (all 25 ordered pairs of models): the reported distance does not depend on the models the two
+\* points were given in; in particular it is zero (never NaN) for x = y held through coordinates of different models.
+PairPts == {v \in Points : Interior(v) /\ \A i \in 1..(N + 1) : v[i] <= BPair /\ 0 - v[i] <= BPair}
+PCosh(u, v) == R(0 - MDot(u, v), S(u) * S(v))
+PCond(v) == R(v[1] * v[1], NN(v))
+ASSUME PrintT("DPAIRS " \o ToJson({<<u, v, PCosh(u, v), RAdd(PCond(u), PCond(v))>> : u \in PairPts, v \in PairPts}))
+ASSUME \A u \in PairPts : PCosh(u, u) = ROne
+
+\* ------------------------------------------------------------------ the query-history machine
+Queries == Models \cup {"dist_origin", "dist_rebuilt", "origin_to"}
+QDefined(v, q) == IF q \in Models THEN Defined(v, q) ELSE Interior(v)
+\* the specified value of a query on the point v
+QValue(v, q) == CASE q \in Models -> Coord(v, q)
+                  [] q = "dist_origin" -> <<R(v[1], S(v))>>       \* cosh d(v, origin) = v1 / s
+                  [] q = "dist_rebuilt" -> <<ROne>>               \* cosh d(v, v) = 1: the second object is the same point
+                  [] q = "origin_to" -> RVec(v)                   \* image of the origin under the returned isometry
+InHist(v) == \A i \in 1..(N + 1) : v[i] <= BHist /\ 0 - v[i] <= BHist
+Query(q) ==
+  LET y == From(chart, c) IN
+  /\ steps = 0 /\ InHist(x) /\ Len(held) < MaxQueries
+  /\ QDefined(y, q)
+  /\ held' = Append(held, <<q, QValue(y, q)>>)
+  /\ UNCHANGED <<x, chart, c, steps>>
+  /\ last' = [a |-> "query", q |-> q]
+
+Next == (\E m2 \in Models : Convert(m2)) \/ (\E q \in Queries : Query(q))
+
+\* values handed out describe the point as it is now (queries are read-only, results are not windows into the object)
+HeldValid == \A i \in 1..Len(held) : held[i][2] = QValue(x, held[i][1])
+\* the caller's coordinates still are the coordinates of the point in the model it was built in
+\* (this is PointFixed: query steps leave c alone, so it is checked under that name)
+CallerCoordsKept == PointFixed
+\* the distance to the origin agrees with the closed form of the ball models on the exact coordinates
+OriginDistance == Interior(x) => /\ RMul(QValue(x, "dist_origin")[1], RSub(ROne, RNormSq(Poincare(x)))) = RAdd(ROne, RNormSq(Poincare(x)))
+                                 /\ RMul(RSq(QValue(x, "dist_origin")[1]), RSub(ROne, RNormSq(Klein(x)))) = ROne
+
+QNames == [i \in 1..Len(held) |-> held[i][1]]
+\* cond = (x1/s)^2 = 1 / (1 - |k|^2): conditioning of arccosh at 1 for this point (tolerance of "zero distance")
+Cond(v) == IF Interior(v) THEN R(v[1] * v[1], NN(v)) ELSE RZero
+EmitHist == IF ~InHist(x) \/ MaxQueries = 0 THEN TRUE
+            ELSE IF Len(held) = 0
+            THEN PrintT("HIST " \o ToJson([k |-> "point", x |-> x, ideal |-> Ideal(x), chart |-> chart, c |-> c, cond |-> Cond(x),
+                                             vals |-> [q \in {r \in Queries : QDefined(x, r)} |-> QValue(x, q)]]))
+            ELSE Len(held) < MaxQueries \/ PrintT("HIST " \o ToJson([k |-> "hist", x |-> x, chart |-> chart, qs |-> QNames]))
+
+Emit == last'.a # "convert" \/
+        PrintT("EMIT " \o ToJson([x |-> x, ideal |-> Ideal(x), from |-> [m |-> chart, c |-> c],
                                     to |-> [m |-> chart', c |-> c']]))
-View == <<x, chart, c>>
+View == <<x, chart, c, held>>
 =============================================================================
